@@ -14183,3 +14183,54 @@ mod adaptive_fee_tests {
         */
     }
 }
+
+// verification hooks (feature `verif` only): public wrappers around private helpers
+#[cfg(feature = "verif")]
+pub fn verif_calculate_fees(
+    fee_amount: u64,
+    protocol_fee_rate: u16,
+    curr_liquidity: u128,
+    curr_protocol_fee: u64,
+    curr_fee_growth_global_input: u128,
+) -> (u64, u128) {
+    calculate_fees(
+        fee_amount,
+        protocol_fee_rate,
+        curr_liquidity,
+        curr_protocol_fee,
+        curr_fee_growth_global_input,
+    )
+}
+
+#[cfg(feature = "verif")]
+pub fn verif_calculate_protocol_fee(global_fee: u64, protocol_fee_rate: u16) -> u64 {
+    calculate_protocol_fee(global_fee, protocol_fee_rate)
+}
+
+#[cfg(feature = "verif")]
+pub fn verif_calculate_update(
+    tick: &Tick,
+    a_to_b: bool,
+    liquidity: u128,
+    fee_growth_global_a: u128,
+    fee_growth_global_b: u128,
+    reward_infos: &[WhirlpoolRewardInfo; NUM_REWARDS],
+) -> Result<(TickUpdate, u128)> {
+    calculate_update(
+        tick,
+        a_to_b,
+        liquidity,
+        fee_growth_global_a,
+        fee_growth_global_b,
+        reward_infos,
+    )
+}
+
+#[cfg(feature = "verif")]
+pub fn verif_get_next_sqrt_prices(
+    next_tick_index: i32,
+    sqrt_price_limit: u128,
+    a_to_b: bool,
+) -> (u128, u128) {
+    get_next_sqrt_prices(next_tick_index, sqrt_price_limit, a_to_b)
+}
